@@ -66,6 +66,10 @@ EXTRA.update({
  "C16-r13gam1": ["C16", "C13"], "C09-r13gam2": ["C09"], "C03-r13gbm1": ["C07", "C03"], "C03-r13gbm2": ["C03", "C04"], "C15-r13gcm1": ["C15"], "C04-r13gcm2": ["C04"],
  "C05-r13gdm1": ["C05", "C04"], "C17-r13gdm2": ["C17"], "C06-r13gem1": ["C06"], "C12-r13gem2": ["C12"], "C07-r13gfm1": ["C07"], "C09-r13gfm2": ["C09"],
 })
+EXTRA.update({
+ "C06-r14gam1": ["C06"], "C11-r14gam2": ["C11", "C05"], "C02-r14gbm1": ["C02", "C14"], "C12-r14gbm2": ["C12"], "C08-r14gcm1": ["C08"], "C13-r14gcm2": ["C13", "C16"],
+ "C04-r14gdm1": ["C07", "C04"], "C09-r14gdm2": ["C09"], "C15-r14gem1": ["C15"], "C10-r14gem2": ["C10"], "C08-r14gfm1": ["C08"], "C17-r14gfm2": ["C17"],
+})
 PREFIX_PROP = {"d8b687c": ["C06"], "da7613f": ["C16"], "64a92d9": ["C02"], "2c87331": ["C13", "C02", "C12"], "06fc22c": ["C05", "C11"],
                "85dc330": ["C05", "C11"], "4c427cc": ["C13"], "a8065bf": ["C13"], "a4e97cf": ["C11"], "2aa0389": ["C04"],
                "9db7846": ["C17"], "23f20cf": ["C17"], "b18464c": ["C07"], "d06cb78": ["C10"], "796c1d9": ["C01", "C11"], "e184993": ["C10"]}
